@@ -155,6 +155,59 @@ func TestSpecialStat(t *testing.T) {
 				}
 			}
 		}
+		// the entries of the directories that hold these objects: each host name exactly once, each record agreeing
+		// with the host object like an Rstat does
+		for di, dp := range [][]string{{}, {"d"}} {
+			dfid := uint32(900 + di)
+			if w := rpc(&wire.Msg{Type: wire.Twalk, Fid: 0, Newfid: dfid, Wname: dp}); w == nil || w.Type != wire.Rwalk {
+				continue
+			}
+			if o := rpc(&wire.Msg{Type: wire.Topen, Fid: dfid, Mode: 0}); o == nil || o.Type != wire.Ropen {
+				continue
+			}
+			got := map[string]int{}
+			off := uint64(0)
+			for k := 0; k < 100; k++ {
+				r := rpc(&wire.Msg{Type: wire.Tread, Fid: dfid, Offset: off, Count: 700})
+				if r == nil || r.Type != wire.Rread || len(r.Data) == 0 {
+					break
+				}
+				off += uint64(len(r.Data))
+				for b := r.Data; len(b) > 0; {
+					st, n, err := wire.DecodeStat(b, dotu)
+					if err != nil {
+						key := "c16:special-stat:dir-entry-undecodable"
+						if !seen[key] {
+							seen[key] = true
+							rep.Violations = append(rep.Violations, Violation{Key: key, What: fmt.Sprintf("directory %v, dotu=%v: %v", dp, dotu, err), Replay: map[string]any{"engine": "ufstree.specialstat", "dotu": dotu, "dir": dp}})
+						}
+						break
+					}
+					got[st.Name]++
+					compare("directory entry", append(append([]string{}, dp...), st.Name), st.Qid, st)
+					b = b[n:]
+				}
+			}
+			des, _ := os.ReadDir(filepath.Join(append([]string{root}, dp...)...))
+			for _, de := range des {
+				if got[de.Name()] != 1 {
+					key := "c16:special-stat:dir-entry-count"
+					if !seen[key] {
+						seen[key] = true
+						rep.Violations = append(rep.Violations, Violation{Key: key, What: fmt.Sprintf("directory %v, dotu=%v: host entry %q listed %d times", dp, dotu, de.Name(), got[de.Name()]), Replay: map[string]any{"engine": "ufstree.specialstat", "dotu": dotu, "dir": dp}})
+					}
+				}
+				delete(got, de.Name())
+			}
+			for n := range got {
+				key := "c16:special-stat:dir-entry-extra"
+				if !seen[key] {
+					seen[key] = true
+					rep.Violations = append(rep.Violations, Violation{Key: key, What: fmt.Sprintf("directory %v, dotu=%v: entry %q is not on the host", dp, dotu, n), Replay: map[string]any{"engine": "ufstree.specialstat", "dotu": dotu, "dir": dp}})
+				}
+			}
+			rpc(&wire.Msg{Type: wire.Tclunk, Fid: dfid})
+		}
 		se.Close()
 		rep.Cases++
 	}
